@@ -32,5 +32,7 @@ inline void touch(tbox::coroutine::Scheduler &sch) {
     tbox::ObjectPool<Obj> pool;
     Obj *o = pool.alloc();
     pool.free(o);
+    tbox::cabinet::Cabinet<Obj> cab;    // default construction: instantiates the default member initialisers
+    (void)cab.size();
 }
 }
